@@ -174,8 +174,26 @@ def parse_output(res, out):
         res.coverage[m.group(1)] = (int(m.group(3)), int(m.group(4)))
 
 
+VALIDATE_CHUNK = 4000     # observed steps per TLC invocation (the cost of one invocation grows faster than its input)
+
+
 def validate_steps(steps, module='TrashTrace', init='InitT', next_='NextT', constants=None, workers=4, timeout=1800):
     """Have TLC judge observed steps.  -> (TlcResult, set of accepted 1-based step numbers)"""
+    if len(steps) > VALIDATE_CHUNK:
+        total, acc_all = None, set()
+        for off in range(0, len(steps), VALIDATE_CHUNK):
+            r, acc = validate_steps(steps[off:off + VALIDATE_CHUNK], module, init, next_, constants, workers, timeout)
+            acc_all |= {a + off for a in acc}
+            if total is None:
+                total = r
+            else:
+                total.generated += r.generated
+                total.distinct += r.distinct
+                total.wall += r.wall
+                total.depth = max(total.depth, r.depth)
+                if total.ok and not r.ok:
+                    total.ok, total.error, total.violated, total.raw = r.ok, r.error, r.violated, r.raw
+        return total, acc_all
     constants = constants or {'MaxObj': 12, 'MaxClock': 12, 'DayTicks': 3}
     d = tempfile.mkdtemp(prefix='vtrace-', dir='/dev/shm' if os.path.isdir('/dev/shm') else None)
     try:
